@@ -50,6 +50,13 @@ var VerifPoolTracer atomic.Pointer[func(VerifPoolEvent)]
 
 var verifPoolSeq atomic.Uint64
 
+var verifPoison = func() (b [bufSize]byte) {
+	for i := range b {
+		b[i] = 0xDB
+	}
+	return
+}()
+
 func verifPoolEvent(op string, p *PacketPool, pkt *Packet, f func(VerifPoolEvent)) {
 	ev := VerifPoolEvent{
 		Seq:  verifPoolSeq.Add(1),
@@ -87,9 +94,7 @@ func verifPoolPut(p *PacketPool, pkt *Packet) {
 	if pkt != nil {
 		pkt.RawPacket = nil
 		if pkt.buffer != nil {
-			for i := range pkt.buffer {
-				pkt.buffer[i] = 0xDB
-			}
+			*pkt.buffer = verifPoison // one block copy (cheap under the race detector)
 		}
 	}
 }
